@@ -811,6 +811,41 @@ def try_branches_on(fn, poll_call):
     return out
 
 
+def result_decisions(fn, pred):
+    """decisions on a Result value whose origin roots satisfy `pred(root)`: `x?` (Try::branch + its switch) and explicit
+    `match x { Ok(..) => .., Err(..) => .. }` / `if let Err(e) = x`.  list of dict(site, cont_edge, break_edge, call)"""
+    out = []
+    taken = set()
+    for c in fn.calls():
+        if not c.matches(r"ops::Try(>)?::branch$"):
+            continue
+        if not any(pred(r) for r in fn.origins(c.args[0])):
+            continue
+        t = fn.term(c.target) if c.target is not None else None
+        ce = be = None
+        if t and t["k"] == "switch":
+            info = fn.switch_info(fn.term_site(c.target))
+            ce = (c.target, info["edges"]["Continue"]) if "Continue" in info["edges"] else None
+            be = (c.target, info["edges"]["Break"]) if "Break" in info["edges"] else None
+            taken.add(c.target)
+        out.append({"site": c.site, "call": c, "cont_edge": ce, "break_edge": be})
+    for site, t in fn.switches():
+        if site.bb in taken or t["dty"] == "bool":
+            continue
+        info = fn.switch_info(site)
+        edges = info.get("edges", {})
+        if not ("Ok" in edges or "Err" in edges):
+            continue
+        if info.get("kind") != "enum" or "disc_place" not in info or "Result" not in str(info.get("disc_adt") or info.get("disc_ty") or "Result"):
+            continue
+        if not any(pred(r) for r in fn.origins(info["disc_place"])):
+            continue
+        ok_t = edges.get("Ok")
+        err_t = edges.get("Err")
+        out.append({"site": site, "call": None, "cont_edge": (site.bb, ok_t) if ok_t is not None else None, "break_edge": (site.bb, err_t) if err_t is not None else None})
+    return out
+
+
 def creation_sites(db, body):
     """sites (fn, Site, stmt) where the closure/coroutine `body` is created"""
     out = []
